@@ -267,6 +267,7 @@ def scenario(eng, rng, res, cfg):
     yield from eng.quiesce()
     if not eng.dead:
         res.event("sessions_quiesced")
+        eng._partner_rx()
         if eng.p_unacked:
             # the model says every obligation is met but the partner still waits: harness inconsistency, not a verdict
             raise RuntimeError("partner still has %d unacknowledged headers" % len(eng.p_unacked))
